@@ -54,9 +54,10 @@ def of_dt(t):
     return None if t is None else ((t.start - EPOCH) // US, (t.end - EPOCH) // US)
 
 
-def construct(kind, nholes, d, props):
-    """a freshly constructed shape of the kind with the given dt and properties (the fixed geometry per kind)"""
-    kw = {'dt': mk_dt(d), 'properties': {f'k{k}': v for k, v in props}}
+def construct(kind, nholes, d, props, raw_props=None):
+    """a freshly constructed shape of the kind with the given dt and properties (the fixed geometry per kind);
+    raw_props: the properties dict itself (family V: values of any type), handed to the constructor as it is"""
+    kw = {'dt': mk_dt(d), 'properties': {f'k{k}': v for k, v in props} if raw_props is None else raw_props}
     hs = mk_holes(nholes) or None
     if kind == 'KPolygon':
         return GeoPolygon([C(0, 0), C(10, 0), C(10, 10), C(0, 10), C(0, 0)], holes=hs, **kw)
@@ -185,6 +186,187 @@ def with_others(s):
         if after[r] != base[r]:
             fails.append(('read_repeat', f'{r} answered {str(base[r])[:80]} before and {str(after[r])[:80]} after read-only calls with arguments'))
     return fails
+
+
+# ---- V. properties whose VALUES are containers -------------------------------------------------
+# Mechanism class: a read-only operation (format conversion, export through a collection, copy / pickle, derived
+# shapes, predicates, cached geometry) that works on the shape's OWN property values instead of on values of its own -
+# in-place normalisation / sanitising / rounding / sorting of nested lists and dicts, a shallow copy handed to a helper
+# that mutates below the top level, default-filling of nested dicts, caching a converted tree back into the shape.  The
+# histories above only hold integers as property values, where a shallow copy protects everything; here the values are
+# trees (lists, dicts, tuples, nested up to 3 deep) with datetimes (aware / naive), ints, floats, bools, strings and
+# None at the leaves.  The property tree is described by a JSON spec and BUILT INDEPENDENTLY three times: one tree is
+# handed to the shape, one is the reference the library never sees, one goes to the fresh twin.  After every
+# operation of the catalogue the shape's _properties and .properties must be deep-equal AND type-equal to the reference
+# (a datetime stays a datetime, a tuple a tuple, key order kept), the same for dicts passed as arguments and for the
+# other members of an exporting collection; value-returning reads repeat; at the end properties / to_geojson / wkt of
+# the shape equal those of the twin.
+def gen_tree(rng, depth, want_dt):
+    """a value spec: ['dt', us, tz-minutes|None] ['int', v] ['float', v] ['str', v] ['bool', v] ['none'] ['list', [..]]
+    ['tuple', [..]] ['dict', [[key, spec], ..]]"""
+    def leaf():
+        u = rng.random()
+        if u < (0.45 if want_dt else 0.0):
+            return ['dt', rng.randint(-10**6, 10**7) * 1_000_000 + rng.choice([0, 0, 250_000]), rng.choice([0, 0, 120, -330, None])]
+        return rng.choice([['int', rng.randint(-5, 99)], ['float', rng.choice([0.5, -1.25, 3.0, 1e-3])], ['str', rng.choice(['a', 'site-7', '', '2021-03-04T05:06:07+00:00'])],
+                           ['bool', rng.random() < 0.5], ['none']])
+    if depth <= 0 or rng.random() < 0.25:
+        return leaf()
+    n = rng.choice([0, 1, 2, 2, 3])
+    k = rng.choice(['list', 'list', 'dict', 'dict', 'tuple'])
+    kids = [gen_tree(rng, depth - 1, want_dt) for _ in range(n)]
+    if k == 'dict':
+        return ['dict', [[rng.choice(['created', 'tags', 'when', 'x', 'y']) + str(i), c] for i, c in enumerate(kids)]]
+    return [k, kids]
+
+
+def build_tree(t):
+    k = t[0]
+    if k == 'dt':
+        d = EPOCH + t[1] * US
+        return d.replace(tzinfo=None) if t[2] is None else d.astimezone(timezone(timedelta(minutes=t[2])))
+    if k == 'none':
+        return None
+    if k == 'list':
+        return [build_tree(c) for c in t[1]]
+    if k == 'tuple':
+        return tuple(build_tree(c) for c in t[1])
+    if k == 'dict':
+        return {key: build_tree(c) for key, c in t[1]}
+    return t[1]
+
+
+def tree_has_nested_dt(t, depth=0):
+    if t[0] == 'dt':
+        return depth > 0
+    if t[0] in ('list', 'tuple'):
+        return any(tree_has_nested_dt(c, depth + 1) for c in t[1])
+    if t[0] == 'dict':
+        return any(tree_has_nested_dt(c, depth + 1) for _, c in t[1])
+    return False
+
+
+def build_props(spec):
+    return {key: build_tree(t) for key, t in spec}
+
+
+def deep_diff(got, want, path='properties'):
+    """None when got is deep-equal and type-equal to want (dict key order included), else the first difference"""
+    if type(got) is not type(want):
+        return f'{path}: {type(want).__name__} {want!r:.80} became {type(got).__name__} {got!r:.80}'
+    if isinstance(want, dict):
+        if list(got) != list(want):
+            return f'{path}: keys {list(want)} became {list(got)}'
+        for k in want:
+            d = deep_diff(got[k], want[k], f'{path}[{k!r}]')
+            if d:
+                return d
+        return None
+    if isinstance(want, (list, tuple)):
+        if len(got) != len(want):
+            return f'{path}: length {len(want)} became {len(got)}'
+        for i, (a, b) in enumerate(zip(got, want)):
+            d = deep_diff(a, b, f'{path}[{i}]')
+            if d:
+                return d
+        return None
+    if isinstance(want, datetime):
+        return None if (got == want and got.utcoffset() == want.utcoffset()) else f'{path}: {want!r} became {got!r}'
+    return None if repr(got) == repr(want) else f'{path}: {want!r} became {got!r}'
+
+
+V_OPS = ['properties', 'to_geojson', 'to_geojson(k)', 'to_geojson(include_bbox)', 'to_geojson(properties=arg)', '__geo_interface__',
+         'to_geo_interface', 'to_wkt', 'to_shapely', 'bounds', 'centroid', 'area', 'volume', 'hash/repr/eq', 'copy', 'copy().to_geojson',
+         'pickle', 'pickle.to_geojson', 'to_polygon', 'to_polygon().to_geojson', 'circumscribing.to_geojson', 'bounding_coords/linear_rings',
+         'predicates', 'set_property(inplace=False).to_geojson', 'set_dt(inplace=False).to_geojson', 'strip_dt(inplace=False).to_geojson',
+         'buffer_dt(inplace=False).to_geojson', 'collection.to_geojson', 'collection.to_geojson(properties=arg)', 'track.to_geojson',
+         'collection.copy().to_geojson', 'collection.filter_by_property']
+
+
+def run_container_case(kind, nholes, d0, pspec, ops, ospec, aspec):
+    """family V on the implementation: -> list of (op index, clause, detail)"""
+    from geostructures.collections import Track
+    s = construct(kind, nholes, d0, [], raw_props=build_props(pspec))
+    ref = build_props(pspec)                                   # never handed to the library
+    other = GeoPoint(Coordinate(5, 5), dt=EPOCH, properties=build_props(ospec))
+    oref = build_props(ospec)
+    fails = []
+
+    def want_public(sh, r):
+        w = dict(r)
+        if sh.dt is not None:
+            w.update({'datetime_start': sh.dt.start, 'datetime_end': sh.dt.end})
+        return w
+
+    for i, op in enumerate(ops):
+        arg, aref = build_props(aspec), build_props(aspec)
+        dt_before, wkt_before = repr(s.dt), s.to_wkt()
+        g = lambda sh: sh.to_geojson()                          # noqa: E731
+        fns = {
+            'properties': lambda: s.properties, 'to_geojson': lambda: s.to_geojson(), 'to_geojson(k)': lambda: s.to_geojson(k=8),
+            'to_geojson(include_bbox)': lambda: s.to_geojson(include_bbox=True),
+            'to_geojson(properties=arg)': lambda: s.to_geojson(properties=arg),
+            '__geo_interface__': lambda: s.__geo_interface__, 'to_geo_interface': lambda: s.to_geo_interface(),
+            'to_wkt': lambda: s.to_wkt(), 'to_shapely': lambda: s.to_shapely().wkt, 'bounds': lambda: s.bounds,
+            'centroid': lambda: s.centroid, 'area': lambda: s.area, 'volume': lambda: s.volume,
+            'hash/repr/eq': lambda: (hash(s), repr(s), s == s.copy()),
+            'copy': lambda: s.copy().properties, 'copy().to_geojson': lambda: g(s.copy()),
+            'pickle': lambda: pickle.loads(pickle.dumps(s)).properties, 'pickle.to_geojson': lambda: g(pickle.loads(pickle.dumps(s))),
+            'to_polygon': lambda: s.to_polygon().properties, 'to_polygon().to_geojson': lambda: g(s.to_polygon()),
+            'circumscribing.to_geojson': lambda: (g(s.circumscribing_circle()), g(s.circumscribing_rectangle())),
+            'bounding_coords/linear_rings': lambda: (s.bounding_coords(), s.linear_rings()),
+            'predicates': lambda: (s.contains(other), s.intersects(other), other.intersects(s), s.contains_coordinate(Coordinate(5, 5))),
+            'set_property(inplace=False).to_geojson': lambda: g(s.set_property('zz', [EPOCH], inplace=False)),
+            'set_dt(inplace=False).to_geojson': lambda: g(s.set_dt(TimeInterval(EPOCH, EPOCH + timedelta(hours=2)), inplace=False)),
+            'strip_dt(inplace=False).to_geojson': lambda: g(s.strip_dt(inplace=False)),
+            'buffer_dt(inplace=False).to_geojson': lambda: g(s.buffer_dt(timedelta(hours=1), inplace=False)),
+            'collection.to_geojson': lambda: FeatureCollection([other, s]).to_geojson(),
+            'collection.to_geojson(properties=arg)': lambda: FeatureCollection([s, other]).to_geojson(properties=arg, k=6),
+            'track.to_geojson': lambda: Track([other, s]).to_geojson(),
+            'collection.copy().to_geojson': lambda: FeatureCollection([s, other]).copy().to_geojson(),
+            'collection.filter_by_property': lambda: len(FeatureCollection([s]).filter_by_property(pspec[0][0], lambda v: bool(v))) if pspec else 0,
+        }
+        r1 = call(fns[op])
+        c1 = (r1[0], canon(r1[1])) if r1[0] == 'Ok' else r1[:2]
+        checks = [('read_pure', f'{op}: the shape\'s ', s._properties, ref),
+                  ('read_pure', f'{op}: what the shape\'s .properties returns: ', call(lambda: s.properties)[1], want_public(s, ref)),
+                  ('args_untouched', f'{op}: the other shape\'s ', other._properties, oref),
+                  ('args_untouched', f'{op}: the dict passed as properties= : ', arg, aref)]
+        for clause, what, got, want in checks:
+            d = deep_diff(got, want)
+            if d:
+                fails.append((i, clause, what + d))
+        if repr(s.dt) != dt_before or s.to_wkt() != wkt_before:
+            fails.append((i, 'read_pure', f'{op} changed the time bounds / geometry of the shape'))
+        arg2 = build_props(aspec)
+        arg = arg2                                              # the lambdas read `arg` when called: a pristine dict again
+        r2 = call(fns[op])
+        c2 = (r2[0], canon(r2[1])) if r2[0] == 'Ok' else r2[:2]
+        if c1 != c2:
+            fails.append((i, 'read_repeat', f'{op}: {str(c1)[:120]} then {str(c2)[:120]}'))
+        if fails:
+            break
+    if not fails:
+        fresh = construct(kind, nholes, of_dt(s.dt), [], raw_props=build_props(pspec))
+        for r in ('RProps', 'RGeoJson', 'RWkt', 'RDt'):
+            a, b = do_read(s, r), do_read(fresh, r)
+            if a != b:
+                fails.append((len(ops) - 1, 'obs_as_fresh', f'{r} after {ops}: receiver {str(a)[:160]} vs fresh twin {str(b)[:160]}'))
+    return fails
+
+
+def gen_container_case(rng, kind):
+    nh = rng.choice([0, 0, 1]) if has_holes(kind) else 0
+    a = rng.randint(-2, 3)
+    d0 = rng.choice([None, [a * H, a * H], [a * H, (a + rng.randint(1, 3)) * H]])
+    want_dt = rng.random() < 0.85
+    keys = rng.sample(['name', 'visits', 'meta', 'first_seen', 'score', 'log'], rng.randint(1, 4))
+    pspec = [[k, gen_tree(rng, rng.choice([0, 1, 2, 3]), want_dt)] for k in keys]
+    ospec = [[k, gen_tree(rng, 2, True)] for k in rng.sample(['o', 'visits', 'seen'], rng.randint(0, 2))]
+    aspec = [[k, gen_tree(rng, 2, True)] for k in rng.sample(['extra', 'visits', 'meta', 'datetime_start'], rng.randint(0, 2))]
+    ops = rng.sample(V_OPS, rng.randint(2, 5))
+    return {'k': 'container-props', 'kind': kind, 'nholes': nh, 'dt0': d0, 'props_spec': pspec, 'other_props_spec': ospec,
+            'arg_props_spec': aspec, 'ops': ops}
 
 
 def do_read(s, r):
@@ -508,6 +690,29 @@ def main():
         ck.violation({'kind': 'property-fails-on-implementation' if 'property_clauses_violated' in m else 'model-vs-implementation',
                       'case': m, 'gallina_case': cases[i][:4000],
                       'theorems': 'C16_* (Props/C16.v)', 'how_to_replay': 'bin/check C16 --replay <this file>'})
+    # V. container-valued properties (see run_container_case): implementation side only
+    v_n = v_nested = v_ops = v_reported = 0
+    for kind in KINDS:
+        for _ in range(30 if not thorough else 240):
+            m = gen_container_case(rng, kind)
+            try:
+                vf = run_container_case(kind, m['nholes'], m['dt0'], m['props_spec'], m['ops'], m['other_props_spec'], m['arg_props_spec'])
+            except Exception as ex:   # noqa
+                ck.violation({'kind': 'implementation-raises', 'case': m, 'exception': repr(ex)})
+                continue
+            v_n += 1
+            v_ops += len(m['ops'])
+            v_nested += any(tree_has_nested_dt(t) for _, t in m['props_spec'])
+            ck.count('container-props:' + kind)
+            if vf and v_reported < 5:
+                v_reported += 1
+                m['properties_as_built'] = repr(build_props(m['props_spec']))[:600]
+                m['property_clauses_violated'] = [list(f) for f in vf][:6]
+                ck.violation({'kind': 'property-fails-on-implementation', 'case': m, 'theorems': 'C16_read_pure / C16_args_untouched / C16_obs_as_fresh',
+                              'how_to_replay': 'bin/check C16 --replay <this file>'})
+    ck.cov['container_property_cases'] = v_n
+    ck.cov['container_property_cases_with_a_datetime_below_the_top_level'] = v_nested
+    ck.cov['container_property_operations'] = v_ops
     # membership of a coordinate does not depend on which cached values the shape happens to hold: wedges whose outer arc
     # passes through a cardinal direction between two drawn vertices (the arc bulges out of the box of the drawn polygon),
     # probed just inside the arc at that direction, before and after `bounds` / the rectangle / a bbox export were read
@@ -536,17 +741,28 @@ def main():
                    '(buffers include negative ones that invert the interval, buffer_dt without dt); after EVERY operation: model '
                    'comparison of dt, ordered properties, hole count, cache flags, returned object; implementation-side checks of '
                    'purity, repeatability, argument integrity and bit-identical agreement of all 10 observations with a freshly '
-                   'constructed object (receiver and returned shape); fixed D17 regression histories. evaluations = operations; '
+                   'constructed object (receiver and returned shape); fixed D17 regression histories; then (family V, implementation side) '
+                   'shapes of every kind whose property VALUES are trees (lists / dicts / tuples nested up to 3 deep, datetimes aware and naive, '
+                   'numbers, strings, None), 2-5 operations of a 32-entry read-only catalogue (exports with and without caller properties, '
+                   'collection / Track export, geo interface, wkt, shapely, cached geometry, copy / pickle / derived shapes and THEIR export, '
+                   'predicates, inplace=False updates), after each: _properties and .properties deep- and type-equal to an independently '
+                   'built reference tree, argument dicts and other collection members likewise, repeatability, twin comparison. evaluations = operations; '
                    'non-trivial = distinct histories containing at least one update and one read',
               assumptions=['geometry is fixed per kind (it cannot change through the public API); geometry-valued observations are compared between '
                            'implementation objects of the same run, never against Coq',
-                           'property values are integers; keys k0..k3',
+                           'property values are integers, keys k0..k3 in the modelled histories (family V: arbitrary value trees, implementation side only)',
                            'caches of member shapes of a multi-shape and of hole objects are not modelled'])
 
 
 def replay(path):
     r = json.load(open(path))
     m = r.get('case') or {}
+    if m.get('k') == 'container-props':
+        print('properties as built:', build_props(m['props_spec']))
+        print('operations:', m['ops'])
+        print('property clauses violated now:', run_container_case(m['kind'], m['nholes'], m['dt0'], m['props_spec'], m['ops'],
+                                                                   m['other_props_spec'], m['arg_props_spec']))
+        return
     if m.get('k') != 'history':
         print(json.dumps(r, indent=1))
         return
